@@ -313,7 +313,6 @@ def _structure(text):
 def record_traces(seed, count):
     """sessions: one text (a real serialisation, possibly mutated) pushed through parse.address of
     several networks via ONE parseable_str object (its cache is the state), plus the encoder calls"""
-    from pycoin.networks.parseable_str import parseable_str
     rnd = random.Random(seed)
     allnets = [(s, n) for s, n in nets.networks() if not nets.is_stub(n)]
     tbl = {t["sym"]: t for t in nets.table()}
@@ -352,7 +351,7 @@ def record_traces(seed, count):
             text = nets.segwit("".join(map(chr, st["hrp"])), ver, prog, rnd.choice(["bech32", "bech32m"]))
         elif mut < 0.6:
             text = text[:-1] + ("q" if text[-1] != "q" else "p")    # checksum broken
-        ps = parseable_str(text)
+        ps = N.parseable_str_type(text)
         st = _structure(text)
         ms = [sym] + [s for s, _ in rnd.sample(allnets, 6)]
         # networks that share version bytes are the interesting readers
